@@ -11,15 +11,15 @@ open Rosmar Rosmar.Sql
 /-! ### Expiry sweep: `exp > 0 AND exp <= now`; next deadline: `exp > 0` -/
 
 theorem tie_expire_pred (cid : Nat) (k : String) (r : Row) (now : Nat) :
-    Collection_expireDocuments_WHERE_0.selects (env [("$where.collection", .int cid), ("$where.exp", .int now)]) (enc cid k r)
+    sel_by_collection_expLe_expPos.selects (env [("$where.collection", .int cid), ("$where.exp", .int now)]) (enc cid k r)
       = decide (r.exp > 0 ∧ r.exp ≤ now) := by
   by_cases h1 : 0 < r.exp <;> by_cases h2 : r.exp ≤ now <;>
-  simp [Collection_expireDocuments_WHERE_0, Select.selects, E.eval, SRow.get, env, enc, ofBool, SV.truthy, SV.same, h1, h2]
+  simp [sel_by_collection_expLe_expPos, Select.selects, E.eval, SRow.get, env, enc, ofBool, SV.truthy, SV.same, h1, h2]
 
 theorem tie_dueKeys (cid : Nat) (docs : Docs) (now : Nat) :
     dueKeys docs now
       = ((docs.filter (fun d =>
-          Collection_expireDocuments_WHERE_0.selects (env [("$where.collection", .int cid), ("$where.exp", .int now)]) (enc cid d.1 d.2))).foldr
+          sel_by_collection_expLe_expPos.selects (env [("$where.collection", .int cid), ("$where.exp", .int now)]) (enc cid d.1 d.2))).foldr
             insertByExp []).map (·.1) := by
   unfold dueKeys
   congr 2
@@ -28,8 +28,8 @@ theorem tie_dueKeys (cid : Nat) (docs : Docs) (now : Nat) :
   rw [tie_expire_pred]
 
 theorem tie_nextexp_pred (cid : Nat) (k : String) (r : Row) :
-    Bucket_nextExpiration_WHERE_0.selects (env []) (enc cid k r) = decide (r.exp > 0) := by
+    sel_by_expPos.selects (env []) (enc cid k r) = decide (r.exp > 0) := by
   by_cases h1 : 0 < r.exp <;>
-  simp [Bucket_nextExpiration_WHERE_0, Select.selects, E.eval, SRow.get, env, enc, ofBool, SV.truthy, h1]
+  simp [sel_by_expPos, Select.selects, E.eval, SRow.get, env, enc, ofBool, SV.truthy, h1]
 
 end Rosmar.Gen.Sql
